@@ -151,6 +151,8 @@ func c20SyncProperty(t *rapid.T) {
 
 // ---- executor stub shared by solo and raft ---------------------------------------------------
 
+var processStart = time.Now()
+
 type deliveredBlock struct {
 	height   uint64
 	ts       int64
@@ -183,7 +185,11 @@ func (e *execStub) execute(ev *pb.CommitEvent) *deliveredBlock {
 	for _, tx := range ev.Block.Transactions.Transactions {
 		d.txHashes = append(d.txHashes, tx.GetHash().String())
 	}
-	e.history = append(e.history, fmt.Sprintf("%s<-block %d (%d txs)", e.name, h, len(d.txHashes)))
+	var ids []string
+	for _, tx := range ev.Block.Transactions.Transactions {
+		ids = append(ids, fmt.Sprintf("%s:%d", tx.GetFrom().String()[2:6], tx.GetNonce()))
+	}
+	e.history = append(e.history, fmt.Sprintf("%s<-block %d [%s]@%dms", e.name, h, strings.Join(ids, " "), time.Since(processStart).Milliseconds()))
 	if h != e.lastExecuted+1 {
 		e.violations = append(e.violations, fmt.Sprintf("%s was delivered height %d while its last executed height is %d", e.name, h, e.lastExecuted))
 		return nil
